@@ -27,8 +27,9 @@ THEOREMS = ["inv", "inv_meaning", "key_inj", "value_class", "code_struct_eq_iff"
 SEARCHED = [
     "full statement on the real code (constants compared by exact content): object identity vs the structural oracle",
     "compound API calls (Context.constant defaults, Python numbers as operands via normalize, Context.pow special cases)",
+    "contexts with enable_alt=True (constant values held as expressions of the alternate context), except folding of all-constant operations",
     "Type objects are per-context singletons (structurally equal types are one object)",
-    "a failed construction leaves the registry unchanged; intkeys are exactly 0..counter-1",
+    "intkeys of the registered expressions are exactly 0..counter-1",
 ]
 TRUSTED = [
     "Lean 4 kernel; axioms propext, Classical.choice, Quot.sound only",
@@ -65,12 +66,13 @@ F16 = [0, 0x8000, 0x3C00, 0x7E00, 0x7C00, 1, 0x4000]
 ZERO64 = [0, 1 << 63]
 VALUES = {
     "bool": [0, 1],
-    "int": ["0", "1", "-1", "2", "3", str(2**31), str(2**53), str(2**63), str(2**64 + 1), str(-(2**70)), str(10**30)],
+    # -1/-2 and 0/2**61-1 are CPython hash collisions (a registry keyed by hash(key) would alias them)
+    "int": ["0", "1", "-1", "-2", "2", "3", str(2**31), str(2**53), str(2**61 - 1), str(2**63), str(2**64 + 1), str(-(2**70)), str(10**30)],
     "float": F64,
     "complex": [[a, b] for a in (0, 1 << 63, 0x3FF0000000000000, 0x7FF8000000000000) for b in (0, 1 << 63, 0x3FF0000000000000, 0x7FF0000000000000)],
     "str": ["pi", "eps", "posinf", "neginf", "nan", "undefined", "largest", "smallest"],
     "np.int8": ["0", "1", "-1", "127"], "np.int16": ["0", "1", "-32768"], "np.int32": ["0", "1", str(2**31 - 1)],
-    "np.int64": ["0", "1", str(2**63 - 1)], "np.uint8": ["0", "1", "255"], "np.uint16": ["0", "1"], "np.uint32": ["0", "1"],
+    "np.int64": ["0", "1", "-1", "-2", str(2**61 - 1), str(2**63 - 1)], "np.uint8": ["0", "1", "255"], "np.uint16": ["0", "1"], "np.uint32": ["0", "1"],
     "np.uint64": ["0", "1", str(2**64 - 1)], "np.longlong": ["0", "1"],
     "np.float16": F16, "np.float32": F32, "np.float64": F64,
     "np.longdouble": [[0, 0], [1 << 63, 1 << 63], [0x3FF0000000000000, 0], [0x3FF0000000000000, 0x3C30000000000000],
@@ -329,48 +331,70 @@ def import_real():
     return fa
 
 
-def shrink(fa, history, signature):
-    """Delta-debug a history: smallest prefix-closed sub-history still producing `signature`."""
+def shrink(fa, history, signature, budget_s=5.0, alt=False):
+    """Delta-debug a history (chunks, then single steps; a removed step takes its dependents with it) while
+    it still produces `signature`.  The last step (the failing construction) is kept."""
+    import time
+
+    t0 = time.time()
 
     def fails(h):
         try:
-            res = W.execute(fa, h, W.Encoder(), want_lines=False)
+            res = W.execute(fa, h, W.Encoder(), want_lines=False, alt=alt)
         except Exception:  # noqa
             return False
         return any(f["signature"] == signature for f in res.findings)
 
     h = list(history)
-    i = len(h) - 1
-    while i >= 0:
-        cand = drop_step(h, i)
-        if cand is not None and fails(cand):
-            h = cand
-        i -= 1
+    chunk = max(1, len(h) // 2)
+    while chunk >= 1 and time.time() - t0 < budget_s:
+        i, progress = 0, False
+        while i < len(h) - 1 and time.time() - t0 < budget_s:
+            cand = remove_steps(h, range(i, min(i + chunk, len(h) - 1)))
+            if cand is not None and len(cand) < len(h) and fails(cand):
+                h, progress = cand, True
+            else:
+                i += chunk
+        if chunk == 1 and not progress:
+            break
+        chunk = chunk // 2 if chunk > 1 else 1
     return h
 
 
-def drop_step(h, i):
-    """Remove step i, renumbering references; None if a later step refers to it."""
+def _refs_of(st):
+    out = []
+    if isinstance(st.get("like"), int):
+        out.append(st["like"])
+    if "base" in st:
+        out.append(st["base"])
+    out += [a for a in st.get("args", []) if isinstance(a, int)]
+    return out
+
+
+def remove_steps(h, idxs):
+    """Remove the steps `idxs` and every step depending on them; None if the last step would go."""
+    gone = set(idxs)
+    for j, st in enumerate(h):
+        if j not in gone and any(r in gone for r in _refs_of(st)):
+            gone.add(j)
+    if len(h) - 1 in gone or not gone:
+        return None
+    new_index, k = {}, 0
+    for j in range(len(h)):
+        if j not in gone:
+            new_index[j] = k
+            k += 1
     out = []
     for j, st in enumerate(h):
-        if j == i:
+        if j in gone:
             continue
         st = json.loads(json.dumps(st))
-
-        def fix(r):
-            if r == i:
-                raise KeyError
-            return r - 1 if r > i else r
-
-        try:
-            if "like" in st and isinstance(st["like"], int):
-                st["like"] = fix(st["like"])
-            if "base" in st:
-                st["base"] = fix(st["base"])
-            if "args" in st:
-                st["args"] = [fix(a) if isinstance(a, int) else a for a in st["args"]]
-        except KeyError:
-            return None
+        if isinstance(st.get("like"), int):
+            st["like"] = new_index[st["like"]]
+        if "base" in st:
+            st["base"] = new_index[st["base"]]
+        if "args" in st:
+            st["args"] = [new_index[a] if isinstance(a, int) else a for a in st["args"]]
         out.append(st)
     return out
 
@@ -410,7 +434,7 @@ def run(ctx):
                 histories.append(("corpus:" + fn, obj["history"]))
     for name, h, _ in WITNESSES:
         histories.append(("witness:" + name, h))
-    target = ctx.scale(24000, 1000000)
+    target = ctx.scale(27000, 1000000)
     total = 0
     k = 0
     profiles = ["mixed", "mixed", "constants", "ops", "deep", "compound"]
@@ -424,15 +448,19 @@ def run(ctx):
     # ---- real execution (+ oracle) ------------------------------------------------------------
     all_lines, all_expect, owners = [], [], []
     results = []
+    # every 12th generated history without compound calls is executed on a Context(enable_alt=True): search only
     for hi, (origin, h) in enumerate(histories):
+        use_alt = origin.startswith("gen:") and not origin.endswith("compound") and hi % 12 == 5
+        if use_alt:
+            origin = origin + ":alt"
         try:
-            res = W.execute(fa, h, enc)
+            res = W.execute(fa, h, enc, alt=use_alt)
         except Exception as e:  # noqa  -- the harness itself must not die on a broken repo
             import traceback
             item = ctx.broken("correspondence:HashCons(harness exception)", traceback.format_exc()[-1500:])
             ctx.violation("construction-history-crashes:" + type(e).__name__,
                           f"executing a well-formed history on the real Context raised {type(e).__name__}: {e}",
-                          dict(history=h), broken_item=item)
+                          dict(history=h, alt=use_alt), broken_item=item)
             continue
         results.append((origin, h, res))
         for j, (ln, ex) in enumerate(zip(res.lines, res.expect)):
@@ -441,7 +469,7 @@ def run(ctx):
             owners.append((len(results) - 1, j))
         for kk, n in res.stats.items():
             ctx.count(kk, n)
-        ctx.count("profile:" + origin.split(":")[0] + ":" + origin.split(":")[1] if origin.startswith("gen") else "profile:" + origin.split(":")[0])
+        ctx.count("profile:" + (origin if origin.startswith("gen") else origin.split(":")[0]))
         hkey = hash(json.dumps(h, sort_keys=True))
         for si, out in enumerate(res.outcomes):
             st = h[si]
@@ -457,8 +485,9 @@ def run(ctx):
         ok = res.outcomes == want
         ctx.obligation(f"witness-replay:{name}(real code == Lean witness)", ok, kind="correspondence")
         if not ok:
-            ctx.broken(f"witness-replay:{name}", f"real outcomes {res.outcomes}, Lean witness {want}")["has_failing_input"] = True
-            # a witness that no longer reproduces means the finding was fixed in /repo: not a violation
+            # (if the finding was repaired in /repo the model must be updated: the runner then reports
+            # `no-failing-input-found` for this item, as the protocol prescribes)
+            ctx.broken(f"witness-replay:{name}", f"real outcomes {res.outcomes}, Lean witness {want}")
 
     # ---- value-pair stream ---------------------------------------------------------------------
     pairs = gen_value_pairs(ctx.rng, ctx.scale(1500, 20000))
@@ -483,7 +512,7 @@ def run(ctx):
         if ex != got:
             pm += 1
             if pm <= 3:
-                ctx.broken("correspondence:PyVal(==, is, tuple compare)", json.dumps(dict(a=a, b=b, same_object=same, python=ex, model=got)))["has_failing_input"] = True
+                ctx.broken("correspondence:PyVal(==, is, tuple compare)", json.dumps(dict(a=a, b=b, same_object=same, python=ex, model=got)))
         else:
             ctx.traces_validated += 1
     ctx.obligation("correspondence:PyVal(model pyEq/tupleEq/key part == CPython/numpy on value pairs)", pm == 0, kind="correspondence")
@@ -500,27 +529,29 @@ def run(ctx):
                 continue
             reported[sig] = (ri, f)
     corr_items = {}
-    shown = 0
-    for ri, (j, ex, got) in sorted(mismatch_hist.items()):
-        origin, h, res = results[ri]
-        if shown < 3:
+    if mismatch_hist:
+        examples = []
+        for ri, (j, ex, got) in sorted(mismatch_hist.items())[:3]:
+            origin, h, res = results[ri]
             step = res.line_step[j]
-            item = ctx.broken("correspondence:HashCons", json.dumps(dict(origin=origin, step=step, line=res.lines[j], real=ex, model=got,
-                                                                          history=h[: step + 1])))
-            corr_items[ri] = item
-            shown += 1
+            examples.append(dict(origin=origin, step=step, line=res.lines[j], real=ex, model=got, history=h[: step + 1][-12:]))
+        item = ctx.broken("correspondence:HashCons", json.dumps(dict(mismatching_histories=len(mismatch_hist), examples=examples)))
+        corr_items = {ri: item for ri in mismatch_hist}
     ctx.notes["correspondence_mismatching_histories"] = len(mismatch_hist)
     ctx.notes["search_findings_total"] = nfind
     ctx.obligation("correspondence:HashCons(model == real Context on every construction: outcome, intkey, key)", not mismatch_hist, kind="correspondence")
 
-    first_items = list(corr_items.values()) + broken
-    for sig, (ri, f) in reported.items():
+    first_items = list({id(v): v for v in corr_items.values()}.values()) + broken
+    ctx.notes["search_signatures"] = sorted(reported)
+    for sig, (ri, f) in list(reported.items())[:10]:
         origin, h, res = results[ri]
-        small = shrink(fa, h[: f["step"] + 1], sig) if len(h) <= 700 else h[: f["step"] + 1]
-        item = corr_items.get(ri) or (first_items[0] if first_items else None)
-        ctx.violation(sig, f["what"], dict(history=small, origin=origin), broken_item=item)
-        if item is not None:
-            # one failing input accounts for every broken correspondence/obligation item of this run
+        known = any(k.get("property") == ctx.prop and k.get("status") == "known" and k.get("signature") == sig for k in ctx.findings)
+        is_alt = origin.endswith(":alt")
+        small = h[: f["step"] + 1] if known else shrink(fa, h[: f["step"] + 1], sig, alt=is_alt)
+        verdict = ctx.violation(sig, f["what"], dict(history=small, origin=origin, alt=is_alt))
+        if verdict != "known":
+            # a NEW failing input on the real code accounts for the broken correspondence/obligation items of this
+            # run (listed findings never do: they exist on the unchanged tree)
             for it in first_items:
                 it["has_failing_input"] = True
 
@@ -531,7 +562,7 @@ def replay(ctx, obj):
         print("replay names an obligation without failing input:", obj.get("obligation"))
         return 1
     fa = import_real()
-    res = W.execute(fa, rp["history"], W.Encoder())
+    res = W.execute(fa, rp["history"], W.Encoder(), alt=bool(rp.get("alt")))
     for st, out in zip(rp["history"], res.outcomes):
         print(out.ljust(14), json.dumps(st))
     for f in res.findings:
